@@ -162,6 +162,11 @@ def gen_cfg(rng, combo=None, finite=None, n_max=12, allow_not_random=True, u=Non
         kw["c_grapa_0"] = c0
         kw["c_grapa_max"] = rng.choice((c0, 1 - EPS, c0 / 2, c0 / 4))   # also schedules that shrink the clipping scale
         kw["c_grapa_grow"] = rng.choice((0, 0, 1, 10, 0.5))
+    # each tuning parameter that HAS a default is left to it now and then (all given / all default are two points of a
+    # larger grid: defaults that depend on other parameters only show in the mixed cases)
+    for k in ("c_grapa_0", "c_grapa_max", "c_grapa_grow", "c", "d", "f", "minsd", "rate_error_2") + (("lam",) if bet == "agrapa" else ()):
+        if k in kw and rng.random() < 0.12:
+            del kw[k]
     cfg = {"test": test, "estim": estim, "bet": bet, "u": u, "N": N, "t": t,
            "random_order": random_order, "kw": kw}
     if allow_default_eta and "eta" in kw and rng.random() < 0.2:
